@@ -10,7 +10,7 @@ import os, re, itertools
 from vlib import core, twin
 
 LEVEL = "exploration"
-BUDGET = {"quick": 240, "thorough": 1500}
+BUDGET = {"quick": 400, "thorough": 1800}
 
 TYPES = ["_Bool", "char", "short", "int", "long", "unsigned char", "unsigned short", "unsigned int", "unsigned long"]
 TN = ["bool", "char", "short", "int", "long", "uchar", "ushort", "uint", "ulong"]
@@ -57,7 +57,7 @@ def emit_model(n, out):
         out.append("{%s,%s,%s,%d,%d,%d}" % (kk, a, b, l, r, c))
         return len(out) - 1
     if k == "slot": return node("K_SLOT", n[1], 3 if n[2] == ENUM_T else BF[n[2] - 9][4] if n[2] >= 9 else n[2])
-    if k == "const": return node("K_CONST", n[1], n[2])
+    if k == "const": return node("K_CONST", c_lit(n[1]), n[2])
     if k == "bin":
         l = emit_model(n[2], out); r = emit_model(n[3], out); return node("K_BIN", n[1][1], 0, l, r)
     if k == "un":
@@ -161,6 +161,29 @@ def gen_cases(tier):
         # conversion to a floating type must agree with the conversion of the same value held in an int
         cases.append(Case("F/via-%s/enum" % fl.replace(" ", ""), ("const", 1, 3, "1"), [ENUM_T], typed=False,
                           body="%s f = %s; int i = %s; %s g = i; return f == g;" % (fl, text(slot(0, ENUM_T)), text(slot(0, ENUM_T)), fl)))
+    # Layer G: a literal constant as one operand (the compiler sees the value: strength reduction, folding, immediate
+    # operands).  Constants of every rank and signedness, spelled with suffixes and with casts, powers of two and thresholds.
+    def K(v, t, sfx=""): return ("const", v, t, "%d%s" % (v, sfx))
+    NEG = UNOPS[0]
+    consts = [K(v, 3) for v in (0, 1, 2, 4, 8, 16, 31, 32, 64, 128, 256, 65536, 2147483647)]
+    consts += [("un", NEG, K(v, 3)) for v in (1, 8, 128)]
+    consts += [K(v, 7, "u") for v in (1, 2, 4, 8, 32, 256, 2147483648, 4294967295)]
+    consts += [K(v, 4, "L") for v in (1, 4, 8, 4294967296)] + [("un", NEG, K(v, 4, "L")) for v in (1, 8)]
+    consts += [K(v, 8, "UL") for v in (4, 8, 9223372036854775808, 18446744073709551615)]
+    consts += [("cast", 5, K(v, 3)) for v in (1, 8, 128, 255)] + [("cast", 6, K(v, 3)) for v in (8, 65535)]
+    consts += [("cast", 1, K(8, 3)), ("cast", 1, ("un", NEG, K(8, 3))), ("cast", 2, K(16, 3)), ("cast", 2, ("un", NEG, K(8, 3))), ("cast", 0, K(1, 3))]
+    if tier == "quick":
+        consts = [c for i, c in enumerate(consts) if i % 2 == 0 or c[0] != "const"]
+    for op in BINOPS:
+        for t in T:
+            for ci, c in enumerate(consts):
+                ct = text(c).replace(" ", "")
+                cases.append(Case("G/var-const/%s/%s,%s" % (op[0], TN[t], ct), ("bin", op, slot(0, t), c), [t], grid="small"))
+                cases.append(Case("G/const-var/%s/%s,%s" % (op[0], ct, TN[t]), ("bin", op, c, slot(0, t)), [t], grid="small"))
+    for op in ASSIGNOPS:
+        for t in T:
+            for c in consts:
+                cases.append(Case("G/assignop-const/%s=/%s,%s" % (op[0], TN[t], text(c).replace(" ", "")), ("assignop", op, slot(0, t), c), [t], final=0, grid="small"))
     # Layer D: pointer arithmetic / difference / comparison; element sizes 1..24, integer operand of every type
     MUL, ADD, SUB = BINOPS[2], BINOPS[0], BINOPS[1]
     def scaled(sl, sz): return ("bin", MUL, ("cast", 4, sl), ("const", sz, 4, str(sz)))
@@ -500,7 +523,9 @@ def run(ctx):
               layers="A: 18 binary ops x 81 type pairs, 4 unary x 9, 81 casts, ?:, comma, enum constants; "
                      "B: init/assign/arg/return conversions 81 pairs, 10 op= x 81, ++/-- x 9 (global and local), 8 truth contexts x 9; "
                      "C: (a o1 b) o2 c [thorough: all 9x9 left types, and a o1 (b o2 c)], unary-of-binary, binary-of-unary, cast-of-binary; "
-                     "D: pointer +,-,[],+=,-=,++,-- for element sizes 1,2,3,4,8,12,24 x integer operand of each type; pointer difference; 6 pointer comparisons")
+                     "D: pointer +,-,[],+=,-=,++,-- for element sizes 1,2,3,4,8,12,24 x integer operand of each type; pointer difference; 6 pointer comparisons; "
+                     "E/F: bit-field and enum-object operands; G: 18 binary ops and 10 op= with a literal constant operand on either side "
+                     "(45 constants [quick: 31] of every rank/signedness spelled with suffixes and casts: powers of two, thresholds, negatives) x 9 types")
     for c in (cases[0], cases[len(cases) // 2], cases[-1]):
         ctx.sample({"case": c.cid, "function": (c.body or "return (long)%s;" % text(c.tree)),
                     "grid_sizes": [len(grid_values(t, c.grid)) for t in c.slots]})
